@@ -195,6 +195,23 @@ def probe_coverage(idx, rep):
                 return resolve(vals[0], depth + 1)
         return e
 
+    # the probing routine and its chunk builder must read the SIGN of the offset somewhere (a result that depends on |k| only cannot
+    # distinguish the k-th from the (-k)-th diagonal)
+    if len(fi.params) > 1:
+        kname0 = fi.params[1]
+        n_abs, n_other = df.sign_uses(fi.node, kname0)
+        callee_other = 0
+        for c in df.calls(fi.node):
+            r = idx.resolve_expr(fi.module, c.func, fi)
+            if r is not None and r.kind == "funcs" and any(isinstance(x, ast.Name) and x.id == kname0 for x in c.args):
+                cal = r.val[-1]
+                pos = next(i for i, x in enumerate(c.args) if isinstance(x, ast.Name) and x.id == kname0)
+                if pos < len(cal.params):
+                    callee_other += df.sign_uses(cal.node, cal.params[pos])[1]
+                    n_other -= 1  # the forwarding itself is not a use
+        ok = (n_other + callee_other) > 0
+        rep.decide(ok, "probe-coverage", "exact_diag:offset-sign", f"the offset `{kname0}` is read outside abs() {max(n_other, 0)} time(s) here and {callee_other} time(s) in the chunk builder" +
+                   ("" if ok else ": the result depends on |k| only"), detail="" if ok else "abs-only", locs=[idx.loc(fi.module, fi.node)])
     dims = {f"{a}.shape[{i}]" for i in ("0", "1", "-1", "-2")}
     loops = [n for n in df.body_nodes(fi.node) if isinstance(n, ast.For) and isinstance(n.iter, ast.Call) and isinstance(n.iter.func, ast.Name) and n.iter.func.id == "range"
              and any(isinstance(b, ast.BinOp) and isinstance(b.op, ast.MatMult) for st in n.body for b in ast.walk(st))]
@@ -316,6 +333,23 @@ def auto_selection(idx, rep, rule):
     if not (small_tol_true or small_tol_false):
         rep.undecided("auto-selection", rule.role, f"cannot orient `{ast.unparse(test)}`")
         return
+    # ---- the default tolerance that decides "automatic default => exact": an operator-independent literal
+    a = rule.params[0][0]
+    defaults = []
+    for vals in asg.values():
+        for v, p_, st in vals:
+            if isinstance(v, ast.Call) and isinstance(v.func, ast.Attribute) and v.func.attr == "get" and len(v.args) == 2 and isinstance(v.args[0], ast.Constant) and v.args[0].value == "tol":
+                defaults.append(v.args[1])
+    for d in defaults:
+        loc = [idx.loc(fi.module, d)]
+        if a in df.names_in(d):
+            rep.refuted("auto-selection", rule.role + ":default-tol", f"the default tolerance `{ast.unparse(d)}` depends on the operator `{a}`: whether the automatic default is the exact "
+                        "algorithm then depends on the operator's dtype / size (single precision: a far looser default, so mid-sized operators get the stochastic estimator)", detail="operator-dependent", locs=loc)
+        elif isinstance(d, ast.Constant) and isinstance(d.value, (int, float)):
+            ok = d.value <= 1e-6
+            rep.decide(True if ok else None, "auto-selection", rule.role + ":default-tol", f"default tolerance {d.value!r}" + ("" if ok else ": looser than 1e-6, the exact regime shrinks"), locs=loc)
+        else:
+            rep.undecided("auto-selection", rule.role + ":default-tol", f"default tolerance `{ast.unparse(d)}` is not a literal", locs=loc)
     exact_branch = made_true if small_tol_true else made_false
     other_branch = made_false if small_tol_true else made_true
     ok = exact_branch == ["Exact"] and "Exact" not in other_branch
